@@ -27,6 +27,7 @@ package main
 // content of the caller heap after templates that call verif_poke; the effect of the mutation probes.
 
 import (
+	"bytes"
 	"encoding/hex"
 	"encoding/json"
 	"errors"
@@ -519,6 +520,16 @@ func c18DeepCopy(rv reflect.Value, depth int) reflect.Value {
 		return c
 	case reflect.Struct:
 		c := reflect.New(rv.Type()).Elem()
+		for i := 0; i < rv.NumField(); i++ {
+			if rv.Type().Field(i).PkgPath != "" {
+				// a struct with unexported fields (bytes.Buffer, strings.Reader ...): a copy of the value as a whole; its
+				// own words (read offsets, lengths) are copied, storage it points to is shared
+				if rv.CanInterface() {
+					c.Set(rv)
+				}
+				return c
+			}
+		}
 		for i := 0; i < rv.NumField(); i++ {
 			c.Field(i).Set(c18DeepCopy(rv.Field(i), depth+1))
 		}
@@ -1349,6 +1360,22 @@ func c18Brief(v interface{}, depth int) string {
 	return s
 }
 
+type C18Person struct {
+	Name string
+	Age  int
+}
+type C18ByAge []C18Person
+
+func (a C18ByAge) Len() int           { return len(a) }
+func (a C18ByAge) Less(i, j int) bool { return a[i].Age < a[j].Age }
+func (a C18ByAge) Swap(i, j int)      { a[i], a[j] = a[j], a[i] }
+
+type C18Names []string
+
+func (a C18Names) Len() int           { return len(a) }
+func (a C18Names) Less(i, j int) bool { return a[i] < a[j] }
+func (a C18Names) Swap(i, j int)      { a[i], a[j] = a[j], a[i] }
+
 type C18Author struct{ Name string }
 type C18Post struct {
 	*C18Author
@@ -1373,6 +1400,15 @@ func c18TypedArgumentsAndNilEmbeds(res *Result) {
 			"p":        &C18Post{Title: "t"},
 			"posts":    []*C18Post{{Title: "a"}, {Title: "b", C18Author: &C18Author{"bob"}}},
 			"v":        C18Post{Title: "by value"},
+			// values with methods of the standard interfaces a library might use as a short cut
+			"buf":   bytes.NewBufferString("buffer body"),
+			"rd":    strings.NewReader("reader body"),
+			"brd":   bytes.NewReader([]byte("bytes reader")),
+			"page":  map[string]interface{}{"body": bytes.NewBufferString("<p>nested</p>")},
+			"sorts": sort.StringSlice{"pear", "fig", "apple"},
+			"sorti": sort.IntSlice{3, 1, 2},
+			"byage": C18ByAge{{"ann", 40}, {"bob", 20}, {"cid", 30}},
+			"named": C18Names{"z", "y", "x"},
 		}
 	}
 	var tpls []string
@@ -1392,5 +1428,9 @@ func c18TypedArgumentsAndNilEmbeds(res *Result) {
 		"{{ p.Name }}|{{ p.Title }}|{{ p.Name is defined ? 'd' : 'u' }}", "{{ p.Author }}|{{ p.C18Author }}|{{ p.Meta }}|{{ p.Meta.Name }}", "{% if p.Name %}n{% endif %}{{ p.Name|default('anon') }}",
 		"{% for q in posts %}{{ q.Name|default('-') }}{{ q.Title }}{% endfor %}", "{{ posts[0].Name is defined ? 1 : 0 }}{{ posts[1].Name }}", "{{ v.Name }}{{ v.Title }}{{ v.Meta.Name }}",
 		"{{ posts|first.Name }}{{ posts|column('Name')|join }}", "{{ p|json_encode }}", "{{ dump(p) }}{{ p }}")
+	tpls = append(tpls,
+		"{{ buf }}", "{{ rd }}|{{ brd }}", "{{ page.body }}", "{{ buf }}{{ buf|length }}{{ buf ~ '' }}", "{% set b = buf %}{{ b }}", "{% for k, v in page %}{{ v }}{% endfor %}",
+		"{{ sorts|sort|join(',') }}|{{ sorts|first }}", "{{ sorti|sort|join(',') }}|{{ sorti|first }}", "{{ byage|sort|length }}{{ byage|first.Name }}", "{{ named|sort|join }}{{ named|reverse|join }}{{ named|first }}",
+		"{{ sorts|reverse|join }}{{ sorts|slice(0, 2)|join }}{{ sorts|merge(['q'])|join }}{{ sorts|join }}", "{% for x in sorts|sort %}{{ x }}{% endfor %}{{ sorts|join }}")
 	c18Family(res, "typed-arguments-and-nil-embeds", mk, nil, tpls)
 }
